@@ -211,8 +211,9 @@ PROPS = {
                 "after hello / mid request / mid SOCKS4 user id (socks), (thorough: at every byte offset of a CONNECT request), a tunnel blocked on "
                 "a peer that never reads, an upstream connect that never completes (DNS server that never answers), an open idle tunnel during a "
                 "rule reload; in each scenario every API endpoint (status, live, history, rules, metrics, POST rules) must answer within 2 s and a "
-                "fresh connection through each listener must be served within 2 s; stalled clients accumulate across scenarios; plus the lock-site "
-                "table regenerated from the source; non-trivial = every scenario; distinct = case lines",
+                "fresh connection through each listener must be served within 2 s; stalled clients accumulate across scenarios; then the stall matrix of C05 with the API "
+                "probed at every stage (http+tls / socks+tls / quic / reverse-udp listeners: clients stalled in the TLS and QUIC handshakes, on QUIC streams, "
+                "UDP floods and bursts); plus the lock-site table regenerated from the source; non-trivial = every scenario; distinct = case lines",
         "nontrivial": lambda c, i: True,
         "trusted_base": ["translate/locksites.py (textual, brace-level) extracts the guards held across awaits; the lock model Redproxy/Model/Locks.lean "
                          "treats every lock as exclusive", "scenario conformance is timing based (2 s bound on loopback)"],
